@@ -160,6 +160,9 @@ func runAlias(line []byte, rec *recorder) {
 		s := genStreamScenario(r, fmt.Sprintf("%s-s%d", sc.SID, i), r.rangeInt(2, 6), 3)
 		streams = append(streams, buildStream(s.Units, s.Pkts, s.PMTPIDs, s.Seed, true).bytes)
 	}
+	// one more instance reads DVB tables of every kind carrying descriptors of every tag: each retained byte slice of each parser
+	streams = append(streams, richStream(r, 24))
+	n++
 	var events []M
 	events = append(events, M{"ev": "reset", "t": sc.SID, "kind": "alias", "streams": n})
 	type handle struct {
@@ -262,6 +265,23 @@ func runAlias(line []byte, rec *recorder) {
 	if sc.Conc > 0 {
 		runConcurrent(&sc, rec, r)
 	}
+}
+
+// richStream: a PAT, then PMT / SDT / NIT / EIT / TOT units with random descriptors (all tags) on their PIDs
+func richStream(r *rng, units int) []byte {
+	cc := map[int]int{}
+	var out []byte
+	emit := func(pid int, unit []byte) {
+		out = append(out, packetise(pid, unit, cc[pid])...)
+		cc[pid] += (len(unit) + 183) / 184
+	}
+	emit(0, patFor(0x1000))
+	for i := 0; i < units; i++ {
+		k := tableKinds[1+r.intn(len(tableKinds)-1)]
+		m := randTable(r, k, r.intn(3), 40)
+		emit(pidForKind(k), append([]byte{0}, twinSection(m)...))
+	}
+	return out
 }
 
 // a worker's job is prepared up front (single-threaded: the harness's generators are not goroutine-safe) and then executed,
